@@ -108,6 +108,21 @@ def trace_job(args):
         if longest > min(D, cs["psimax"]) and not r.violations:
             r.violations.append(dict(signature="c04-grant-latency", what="%s 1:%d: the refresher waited %d cycles for the bus (up to cycle %d); bound D = %d, proved bound psiMax = %d"
                                      % (cfg["memtype"], cfg["nphases"], longest, at, D, cs["psimax"]), replay=dict(tag, wait_run_end=at)))
+        # the statement of C04.refresh_rate on the implementation's REF commands (pins = acceptance + 1; two cycles of slack
+        # on either side for the alignment of cycle 0): P*floor(t/(P*tREFI)) - P <= #REF(t) <= P*floor(t/(P*tREFI))
+        meets = bool(cs["wf2"] and cs["budget"])
+        r.coverage["configs_meeting_theorem_hypotheses_Budget"] = int(meets)
+        PT = post * t["tREFI"]
+        acc = [cyc - 1 for cyc in refs]
+        for tt in sorted(set([a for a in acc] + [a + 1 for a in acc] + [total])):
+            nref = sum(1 for a in acc if a < tt)
+            r.evaluations += 1
+            if (post * (max(0, tt - 2) // PT) - post > nref or nref > post * ((tt + 2) // PT)) and not r.violations:
+                what = "%s 1:%d: %d AUTO REFRESH commands in the first %d cycles (tREFI=%d, postponing=%d): outside [P*floor(t/(P*tREFI)) - P, P*floor(t/(P*tREFI))]" % (
+                    cfg["memtype"], cfg["nphases"], nref, tt, t["tREFI"], post)
+                if not meets:
+                    what += " [this configuration does not meet Budget (one episode fits between two requests): outside C04.refresh_rate, still a violation of the property]"
+                r.violations.append(dict(signature="c04-rate", what=what, replay=dict(tag, refs=refs)))
         r.coverage["max_refresh_lateness_cycles"] = worst
         r.coverage["refreshes"] = len(refs)
         if t["tZQCS"] is not None:
